@@ -16,18 +16,19 @@ INPUTS = ["eccentricity", "obliquity", "orbital_frequency", "spin_frequency", "m
 
 
 class LW:
-    def __init__(self, sync, obl_on):
+    def __init__(self, sync, obl_on, nlayers=1):
         import logging
         import TidalPy  # noqa
         logging.disable(logging.WARNING)
         from TidalPy.structures import build_world, build_from_world
         from TidalPy.utilities.conversions import days2rads
-        self.sync, self.obl_on = sync, obl_on
+        self.sync, self.obl_on, self.nlayers = sync, obl_on, nlayers
         self.bfw = build_from_world
         if not hasattr(LW, "_star"):
             LW._star = build_world("sol")
             LW._host = build_world("jupiter")
-            LW._base = build_world("io_simple")
+            LW._bases = {1: build_world("io_simple"), 2: build_world("earth_simple")}
+        LW._base = LW._bases[nlayers]
         w, o = self.fresh()
         self.e_vals = [w.eccentricity, 0.05]
         self.obl_vals = [w.obliquity if w.obliquity is not None else 0.0, 0.3]
@@ -44,13 +45,17 @@ class LW:
         tides["obliquity_tides_on"] = self.obl_on
         w = self.bfw(LW._base, new_config={"force_spin_sync": self.sync, "tides": tides})
         star = self.bfw(LW._star, new_config={})
-        host = self.bfw(LW._host, new_config={})
+        host = self.bfw(LW._host, new_config={}) if self.nlayers == 1 else star      # io around jupiter; the earth around the sun
         o = PhysicsOrbit(star, tidal_host=host, tidal_bodies=w)
         return w, o
 
     @staticmethod
-    def mantle(w):
-        return [l for l in w if l.is_tidal][0]
+    def mantle(w, L=1):
+        return [l for l in w if l.is_tidal][L - 1]
+
+    @staticmethod
+    def tidal_layers(w):
+        return [l for l in w if l.is_tidal]
 
     def perform(self, w, o, act, p):
         m = self.mantle(w)
@@ -93,13 +98,15 @@ class LW:
                 else:
                     o.set_orbital_frequency(w, self.n_vals[orv])
         elif act == "LayerSetTemp":
-            t, = p
+            L, t = p if len(p) == 2 else (1, p[0])
+            m = self.mantle(w, L)
             if t % 2 == 0:
                 m.set_state(temperature=self.t_vals[t])
             else:
                 m.temperature = self.t_vals[t]
         elif act == "LayerSetStrength":
-            s, = p
+            L, s = p if len(p) == 2 else (1, p[0])
+            m = self.mantle(w, L)
             m.set_strength(viscosity=self.str_vals[s][0], shear_modulus=self.str_vals[s][1])
         elif act == "OrbitSetTime":
             t, = p
@@ -117,8 +124,18 @@ class LW:
             d[k] = getattr(w, k)
         d["k2"] = None if not w.global_love_by_orderl else w.global_love_by_orderl.get(2)
         d["neg_imk2"] = None if not w.global_negative_imk_by_orderl else w.global_negative_imk_by_orderl.get(2)
-        d["mantle_heating"] = m.tidal_heating
-        d["mantle_viscosity"], d["mantle_shear"] = m.viscosity, m.shear_modulus
+        tl = self.tidal_layers(w)
+        hs = [x.tidal_heating for x in tl]
+        d["mantle_heating"] = None if any(h is None for h in hs) else np.array([np.asarray(h, dtype=float).ravel()[0] for h in hs])
+        vs = [x.viscosity for x in tl]
+        ss = [x.shear_modulus for x in tl]
+        d["mantle_viscosity"] = np.array([np.nan if v is None else float(np.asarray(v).ravel()[0]) for v in vs])
+        d["mantle_shear"] = np.array([np.nan if v is None else float(np.asarray(v).ravel()[0]) for v in ss])
+        # the per-layer heating rates sum to the global rate (C05's 'summed over shells' at the object level)
+        d["_layer_sum_defect"] = None
+        if d["mantle_heating"] is not None and w.tidal_heating_global is not None:
+            tot = float(np.asarray(w.tidal_heating_global).ravel()[0])
+            d["_layer_sum_defect"] = abs(float(np.sum(d["mantle_heating"])) - tot) / max(abs(tot), 1e-300)
         d["mantle_radiogenic"] = m.radiogenic_heating
         d["core_radiogenic"] = [l for l in w if not l.is_tidal][0].radiogenic_heating
         d["time"] = w.time
@@ -135,11 +152,18 @@ class LW:
             o.time = self.time_vals[tw]
 
         def thermal():
-            if tm:
-                if tm[0] == "T":
-                    m.set_state(temperature=self.t_vals[tm[1]])
+            per_layer = tm if (tm and isinstance(tm[0], list)) or tm == [] or (tm and tm[0] == []) else [tm]
+            order = list(enumerate(per_layer, 1))
+            if not thermal_first:
+                order = order[::-1]
+            for L, x in order:
+                if not x:
+                    continue
+                ml = self.mantle(w, L)
+                if x[0] == "T":
+                    ml.set_state(temperature=self.t_vals[x[1]])
                 else:
-                    m.set_strength(viscosity=self.str_vals[tm[1]][0], shear_modulus=self.str_vals[tm[1]][1])
+                    ml.set_strength(viscosity=self.str_vals[x[1]][0], shear_modulus=self.str_vals[x[1]][1])
 
         def orbital():
             kw = {"eccentricity": self.e_vals[e], "obliquity": self.obl_vals[obl], "orbital_frequency": self.n_vals[orb]}
@@ -209,6 +233,8 @@ def replay(W, beh, sabotage=False):
             out.append(rec)
             break
         exp = W.expected(st)
+        if got.get("_layer_sum_defect") is not None and got["_layer_sum_defect"] > 1e-12:
+            rec["mismatch"].append({"what": "layer_heating_sum", "kind": "derived", "detail": "sum of the tidal layers' heating differs from the global rate by %.3g (relative)" % got["_layer_sum_defect"]})
         if exp["_other_order_differs"]:
             rec["mismatch"].append({"what": "fresh_orders_disagree", "kind": "derived", "detail": exp["_other_order_differs"]})
         for key in DERIVED + INPUTS:
@@ -228,7 +254,7 @@ def replay(W, beh, sabotage=False):
 
 def main():
     job = json.load(open(sys.argv[1]))
-    W = LW(job["sync"], job["obl_on"])
+    W = LW(job["sync"], job["obl_on"], job.get("nlayers", 1))
     res = []
     for bi, beh in enumerate(job["behaviours"]):
         res.append(replay(W, beh, sabotage=bool(job.get("sabotage")) and bi == 0))
